@@ -6,6 +6,192 @@ let optz = function Some z -> join [ "ok"; str_of_z z ] | None -> "ub"
 let okz z = join [ "ok"; str_of_z z ]
 let okb b = join [ "ok"; b2s b ]
 
+(* ---- part 2: the calendar types (ModelCal.v / SpecCal.v) ---- *)
+let zi i = z_of_int i
+let zadd = Z.add and zsub = Z.sub
+let zs l = List.map str_of_z l
+let bs l = List.map b2s l
+let okl l = join ("ok" :: l)
+let in_yr y = Big.leq (Big.of_int (-32767)) (big_of_z y) && Big.leq (big_of_z y) (Big.of_int 32767)
+let in_u8 v = Big.leq Big.zero (big_of_z v) && Big.leq (big_of_z v) (Big.of_int 255)
+let le a b = Big.leq (big_of_z a) (big_of_z b)
+let zeq a b = Big.equal (big_of_z a) (big_of_z b)
+(* a result in the res monad: Some tokens, or the token contract / ub *)
+let rs f = function Ok a -> f a | Contract -> [ "contract" ] | UB _ -> [ "ub" ] | OutOfFuel -> [ "fuel" ]
+let rz = rs (fun z -> [ str_of_z z ])
+let rpair = rs (fun (y, m) -> zs [ y; m ])
+let rtriple = rs (fun ((y, m), d) -> zs [ y; m; d ])
+(* whole leg: if any part is ub the leg is ub (the C++ side cannot show it) *)
+let leg parts = let l = List.concat parts in if List.mem "ub" l then "ub" else okl l
+let legc parts = let l = List.concat parts in if List.mem "ub" l then "ub" else if List.mem "contract" l then "contract" else okl l
+
+let run_case2 op t =
+  match op with
+  | "year_arith" ->
+      let y = next_z t in let dy = next_z t in
+      let c = year_ctor_m y in
+      let i = year_inc_m c and d = year_dec_m c in
+      let m = leg [ zs [ c ]; bs [ year_ok_m c ]; zs [ i; i; c; i; d; d; c; d ]; rz (year_add_assign_m c dy);
+                    rz (year_sub_assign_m c dy); zs [ year_neg_m c; c ]; rz (year_plus_r c dy); rz (year_plus_r c dy);
+                    rz (year_minus_years_m c dy) ] in
+      let one = zi 1 in
+      let all_in = List.for_all in_yr [ y; zadd y one; zsub y one; zadd y dy; zsub y dy ] in
+      let p = if all_in then
+          okl (zs [ y ] @ bs [ year_ok_spec y ] @ zs [ zadd y one; zadd y one; y; zadd y one; zsub y one; zsub y one; y; zsub y one;
+                     zadd y dy; zsub y dy; Z.opp y; y; zadd y dy; zadd y dy; zsub y dy ])
+        else "na" in
+      (m, p)
+  | "year_cmp" ->
+      let a = next_z t in let b = next_z t in
+      (leg [ bs (cmp6_m a b); rz (year_diff_m a b) ], okl (bs (cmp6_spec a b) @ zs [ zsub a b ]))
+  | "month_arith" ->
+      let m0 = next_z t in let dm = next_z t in
+      let m = match month_ctor_m m0 with Ok v -> v | _ -> m0 in
+      let p = rz (month_plus_r m dm) and q = rz (month_minus_months_m m dm) in
+      let ml = leg [ bs [ month_ok_m m ]; p; p; q; p; q; rs zs (month_incdec_m m) ] in
+      let one = zi 1 in
+      let sp = month_plus_spec m dm and sq = month_minus_months_spec m dm in
+      let s1 = month_plus_spec m one and s2 = month_minus_months_spec m one in
+      (ml, okl (bs [ month_ok_spec m ] @ zs [ sp; sp; sq; sp; sq; s1; s1; m; s1; s2; s2; m; s2 ]))
+  | "month_cmp" | "day_cmp" ->
+      let a = next_z t in let b = next_z t in
+      if op = "month_cmp" then (okl (bs (cmp6_m a b)), okl (bs (cmp6_spec a b)))
+      else (okl (bs (cmp6_m a b) @ zs [ day_diff_m a b ]), okl (bs (cmp6_spec a b) @ zs [ zsub a b ]))
+  | "mctor" | "mctor_max" | "dctor" | "dctor_max" ->
+      let v = next_z t in
+      let r = if op = "mctor" || op = "mctor_max" then month_ctor_m v else day_ctor_m v in
+      (legc [ rz r ], if in_u8 v then okl (zs [ v ]) else "na")
+  | "day_plus" | "day_plus_max" ->
+      let d = next_z t in let dd = next_z t in
+      let r = rz (day_plus_m d dd) in
+      (leg [ r; r ], if in_u8 (zadd d dd) then okl (zs [ zadd d dd; zadd d dd ]) else "na")
+  | "day_minus" | "day_minus_max" ->
+      let d = next_z t in let dd = next_z t in
+      (leg [ rz (day_minus_days_m d dd) ], if in_u8 (zsub d dd) then okl (zs [ zsub d dd ]) else "na")
+  | "day_assign" ->
+      let d = next_z t in let dd = next_z t in
+      let one = zi 1 in
+      let m = okl (zs ([ day_add_assign_m d dd; day_sub_assign_m d dd ] @ day_incdec_m d) @ bs [ day_ok_m d ]) in
+      let p = if List.for_all in_u8 [ zadd d dd; zsub d dd; zadd d one; zsub d one ] then
+          let i = zadd d one and k = zsub d one in
+          okl (zs [ zadd d dd; zsub d dd; i; i; d; i; k; k; d; k ] @ bs [ day_ok_spec d ])
+        else "na" in
+      (m, p)
+  | "wd_misc" ->
+      let w = next_z t in let idx = next_z t in
+      let c = weekday_ctor_m w in
+      let (cw, ci) = wdi_ctor_m c idx in
+      let m = okl (zs [ c; weekday_iso_m c ] @ bs [ weekday_ok_m c ] @ zs [ cw; ci ] @ bs [ wdi_ok_m cw ci ] @ zs [ c ] @ bs [ wdl_ok_m c ]) in
+      let sc_ = if zeq w (zi 7) then zi 0 else w in
+      let p = okl (zs [ sc_; (if zeq sc_ (zi 0) then zi 7 else sc_) ] @ bs [ weekday_ok_spec sc_ ] @ zs [ sc_; idx ]
+                   @ bs [ wdi_ok_spec sc_ idx ] @ zs [ sc_ ] @ bs [ weekday_ok_spec sc_ ]) in
+      (m, p)
+  | "md_ok" ->
+      let m = next_z t in let d = next_z t in
+      (okl (bs [ md_ok_m m d; mdl_ok_m m ]), okl (bs [ md_exists m d; month_ok_spec m ]))
+  | "mwd_ok" ->
+      let m = next_z t in let w = next_z t in let idx = next_z t in
+      let c = weekday_ctor_m w in
+      (okl (bs [ mwd_ok_m m c idx; mwdl_ok_m m c ]),
+       okl (bs [ month_ok_spec m && wdi_ok_spec c idx; month_ok_spec m && weekday_ok_spec c ]))
+  | "ym_years" ->
+      let y = next_z t in let m = next_z t in let dy = next_z t in
+      let ml = leg [ bs [ ym_ok_m y m ]; rpair (ym_plus_years_m y m dy); rpair (ym_minus_years_m y m dy) ] in
+      let p = if List.for_all in_yr [ y; zadd y dy; zsub y dy ] then
+          okl (bs [ year_ok_spec y && month_ok_spec m ] @ zs [ zadd y dy; m; zsub y dy; m ]) else "na" in
+      (ml, p)
+  | "ymd_arith" ->
+      let y = next_z t in let m = next_z t in let d = next_z t in let dm = next_z t in let dy = next_z t in
+      let show r = match r with
+        | Ok ((y', m'), d') -> zs [ y'; m'; d' ] @ bs [ ymd_ok_m y' m' d' ]
+        | Contract -> [ "contract" ] | _ -> [ "ub" ] in
+      let ml = leg [ show (ymd_plus_months_m y m d dm); show (ymd_minus_months_m y m d dm);
+                     show (ymd_plus_years_m y m d dy); show (ymd_minus_years_m y m d dy) ] in
+      let sp = [ ymd_plus_months_spec y m d dm; ymd_plus_months_spec y m d (Z.opp dm);
+                 ymd_plus_years_spec y m d dy; ymd_plus_years_spec y m d (Z.opp dy) ] in
+      let p = if in_yr y && List.for_all (fun ((y', _), _) -> in_yr y') sp then
+          okl (List.concat_map (fun ((y', m'), d') -> zs [ y'; m'; d' ] @ bs [ date_exists y' m' d' ]) sp) else "na" in
+      (ml, p)
+  | "ymdl" ->
+      let y = next_z t in let m = next_z t in
+      let ml = leg [ bs [ ymdl_ok_m y m ]; rz (ymdl_day_m y m); rtriple (ymdl_to_ymd_m y m); rz (ymdl_to_days_m y m); rz (ymdl_to_days_m y m) ] in
+      let ld = dim y m in
+      let z = days_spec y m ld in
+      (ml, if in_yr y && month_ok_spec m then okl (bs [ true ] @ zs [ ld; y; m; ld; z; z ]) else "na")
+  | "ymdl_ok" ->
+      let y = next_z t in let m = next_z t in
+      (okl (bs [ ymdl_ok_m y m ]), okl (bs [ year_ok_spec y && month_ok_spec m ]))
+  | "ymdl_arith" | "ymwd_arith" | "ymwdl_arith" ->
+      let y = next_z t in let m = next_z t in
+      if op <> "ymdl_arith" then ignore (next_z t);
+      if op = "ymwd_arith" then ignore (next_z t);
+      let dm = next_z t in let dy = next_z t in
+      let (f1, f2, f3, f4) =
+        if op = "ymdl_arith" then (ymdl_plus_months_m, ymdl_minus_months_m, ymdl_plus_years_m, ymdl_minus_years_m)
+        else (ymwd_plus_months_m, ymwd_minus_months_m, ymwd_plus_years_m, ymwd_minus_years_m) in
+      let ml = leg [ rpair (f1 y m dm); rpair (f2 y m dm); rpair (f3 y m dy); rpair (f4 y m dy) ] in
+      let (a1, b1) = year_month_plus_spec y m dm and (a2, b2) = year_month_plus_spec y m (Z.opp dm) in
+      let p = if List.for_all in_yr [ y; a1; a2; zadd y dy; zsub y dy ] then okl (zs [ a1; b1; a2; b2; zadd y dy; m; zsub y dy; m ]) else "na" in
+      (ml, p)
+  | "ymwd_ok" ->
+      let y = next_z t in let m = next_z t in let w = next_z t in let idx = next_z t in
+      let c = weekday_ctor_m w in
+      let (_, ci) = wdi_ctor_m c idx in
+      (leg [ rs (fun b -> bs [ b ]) (ymwd_ok_m y m c ci) ], okl (bs [ ymwd_exists y m c ci ]))
+  | "ymwd_from" ->
+      let z = next_z t in
+      let ml = match ymwd_from_days_m z with
+        | Ok (((y, m), w), i) ->
+            leg [ zs [ y; m; w; i ]; rs (fun b -> bs [ b ]) (ymwd_ok_m y m w i); rz (ymwd_to_days_m y m w i) ]
+        | _ -> "ub" in
+      (ml, "na")
+  | "ymwd_to" ->
+      let y = next_z t in let m = next_z t in let w = next_z t in let idx = next_z t in
+      let c = weekday_ctor_m w in
+      let (_, ci) = wdi_ctor_m c idx in
+      let r = rz (ymwd_to_days_m y m c ci) in
+      let s = ymwd_days_spec y m c ci in
+      (leg [ r; r ], if in_yr y && month_ok_spec m && weekday_ok_spec c then okl (zs [ s; s ]) else "na")
+  | "ymwdl" ->
+      let y = next_z t in let m = next_z t in let w = next_z t in
+      let c = weekday_ctor_m w in
+      let r = rz (ymwdl_to_days_m y m c) in
+      let s = ymwdl_days_spec y m c in
+      (leg [ bs [ ymwdl_ok_m y m c ]; r; r ],
+       if in_yr y && month_ok_spec m && weekday_ok_spec c then okl (bs [ true ] @ zs [ s; s ]) else "na")
+  | "ymwdl_ok" ->
+      let y = next_z t in let m = next_z t in let w = next_z t in
+      let c = weekday_ctor_m w in
+      (okl (bs [ ymwdl_ok_m y m c ]), okl (bs [ year_ok_spec y && month_ok_spec m && weekday_ok_spec c ]))
+  | "days_any" ->
+      let y = next_z t in let m = next_z t in let d = next_z t in
+      let r = rz (ymd_to_days_m y m d) in
+      let s = zsub (zadd (days_spec y m (zi 1)) d) (zi 1) in
+      (leg [ r; r ], if in_yr y && month_ok_spec m then okl (zs [ s; s ]) else "na")
+  | "eq_all" ->
+      let rd () = let a = next_z t in let b = next_z t in let c = next_z t in let d = next_z t in (a, b, c, weekday_ctor_m c, d) in
+      let (y1, m1, d1, w1, i1) = rd () in
+      let (y2, m2, d2, w2, i2) = rd () in
+      let pr b = bs [ b; not b ] in
+      let ml = okl (List.concat [
+        pr (eq2_m (y1, m1) (y2, m2)); pr (eq3_m ((y1, m1), d1) ((y2, m2), d2)); pr (eq2_m (m1, d1) (m2, d2));
+        pr (zeq m1 m2 && eq2_m (m1, m1) (m2, m2)); pr (eq2_m (y1, m1) (y2, m2)); pr (eq2_m (w1, w1) (w2, w2));
+        pr (eq2_m (w1, i1) (w2, i2)); pr (eq2_m (w1, w1) (w2, w2)); pr (eq3_m ((m1, w1), i1) ((m2, w2), i2));
+        pr (eq2_m (m1, w1) (m2, w2)); pr (eq4_m (((y1, m1), w1), i1) (((y2, m2), w2), i2));
+        pr (eq3_m ((y1, m1), w1) ((y2, m2), w2)) ]) in
+      let e l1 l2 = List.for_all2 zeq l1 l2 in
+      let p = okl (List.concat [
+        pr (e [ y1; m1 ] [ y2; m2 ]); pr (e [ y1; m1; d1 ] [ y2; m2; d2 ]); pr (e [ m1; d1 ] [ m2; d2 ]); pr (e [ m1 ] [ m2 ]);
+        pr (e [ y1; m1 ] [ y2; m2 ]); pr (e [ w1 ] [ w2 ]); pr (e [ w1; i1 ] [ w2; i2 ]); pr (e [ w1 ] [ w2 ]);
+        pr (e [ m1; w1; i1 ] [ m2; w2; i2 ]); pr (e [ m1; w1 ] [ m2; w2 ]); pr (e [ y1; m1; w1; i1 ] [ y2; m2; w2; i2 ]);
+        pr (e [ y1; m1; w1 ] [ y2; m2; w2 ]) ]) in
+      (ml, p)
+  | "slash" ->
+      let y = next_z t in let m = next_z t in let d = next_z t in
+      let c = year_ctor_m y in
+      (legc [ zs [ c ]; rz (month_ctor_m m); rz (day_ctor_m d); zs [ c; m; m; m ] ], "na")
+  | _ -> raise Not_found
+
 let run_case op t =
   match op with
   | "civil" ->
@@ -64,6 +250,6 @@ let run_case op t =
         | Some t3 -> let ((y, m), d) = next_day t3 in join [ "ok"; str_of_z y; str_of_z m; str_of_z d ]
         | None -> "ub" in
       (opt3 (civil_from_days_m (Z.add z (Zpos XH))), r)
-  | _ -> raise Not_found
+  | _ -> run_case2 op t
 
 let () = main run_case
